@@ -323,6 +323,39 @@ def shrink_violations(rep, cap=60):
     w.close()
 
 
+def miri_slice(rep, n=160):
+    """UB-interpreter slice: the lexer (through the hook) and the Core printer under `cargo +nightly miri run`
+    on small inputs. Undefined behaviour reported by Miri is a violation; failing to build/run Miri is only noted."""
+    import subprocess
+    ins = []
+    for k in range(n):
+        r = rng(PROP, 'miri', k)
+        c = k % 4
+        src = (string_heavy(r) if c == 0 else inputs.soup(r) if c == 1 else f'{r.choice(PAIR_VOCAB)}{r.choice(SEPS)}{r.choice(PAIR_VOCAB)}\nq w\n' if c == 2
+               else inputs.mutate(r.choice([s_ for _, s_ in common.repo_samples('valid') if len(s_) < 400] or ['def x := 1\n']), r))
+        ins.append(src[:300])
+    env = dict(common.ENV, MIRIFLAGS='-Zmiri-disable-isolation', CARGO_TARGET_DIR=os.path.join(common.TARGET, 'miri'))
+    try:
+        p = subprocess.run(['cargo', '+nightly', 'miri', 'run', '--offline', '--'] + [common.hx(x) for x in ins], cwd=os.path.join(common.ROOT, 'miri'), env=env,
+                           stdout=subprocess.PIPE, stderr=subprocess.PIPE, text=True, timeout=2400)
+    except (subprocess.TimeoutExpired, OSError) as e:
+        rep.notes.append({'miri': 'not run: ' + str(e)[:100]}); return
+    done = 'miri-slice done' in p.stdout
+    if 'Undefined Behavior' in p.stderr or 'error: unsupported operation' in p.stderr:
+        first = next((l for l in p.stderr.splitlines() if 'Undefined Behavior' in l or 'unsupported operation' in l), '')
+        if 'Undefined Behavior' in first:
+            rep.violation('miri-undefined-behaviour:' + first[:80], {'kind': 'miri', 'stderr': p.stderr[-3000:], 'inputs': ins[:5]})
+        else:
+            rep.notes.append({'miri': 'unsupported operation: ' + first[:120]})
+    elif done:
+        rep.held(('miri-clean',), n=len(ins))
+        rep.count('miri-inputs', len(ins))
+        rep.count('miri-lex-ok', p.stdout.count('lex ok'))
+        rep.count('miri-printer-trees', p.stdout.count('print '))
+    else:
+        rep.notes.append({'miri': 'did not finish', 'rc': p.returncode, 'stderr_tail': p.stderr[-300:]})
+
+
 def main(tier):
     common.build()
     selftest()
@@ -341,6 +374,8 @@ def main(tier):
     count = 6000 if tier == 'quick' else 2000000
     for d in run_shards(shard_stream, (count,)):
         rep.merge(d)
+    if tier == 'thorough':
+        miri_slice(rep)
     shrink_violations(rep)
     npairs = len(PAIR_VOCAB) ** 2 * len(SEPS)
     kinds_seen = sorted(k[5:] for k in rep.cov if k.startswith('kind:'))
